@@ -115,13 +115,13 @@ let handle (f : string array) : string =
     let der = marshalSm2UnecryptedPrivateKey (z_of_str f.(2)) (z_of_str f.(3)) (z_of_str f.(4)) in
     "ok " ^ hex_of_bytes der ^
     (match parsePKCS8UnecryptedPrivateKey dummy_base der with Ok ((d, _), _) -> " ok " ^ str_of_z d | _ -> " err")
-  | "PK" ->
+  | "PK" | "PS" ->
     (match parseSm2PrivateKey dummy_base (bytes_of_hex f.(2)) with Ok ((d, _), _) -> "ok " ^ str_of_z d | _ -> "err")
   | "PX" ->
     (match parseSm2PublicKey (marshalSm2PublicKey (z_of_str f.(2)) (z_of_str f.(3))) with
      | Some (x, y) -> "ok " ^ str_of_z x ^ " " ^ str_of_z y ^ " 1"
      | None -> "err")
-  | "PM" | "PW" -> "SKIP"   (* PEM armour, PBKDF2 and AES are abstract in the model: predicate only *)
+  | "PM" | "PW" | "EA" -> "SKIP"   (* PEM armour, PBKDF2 and AES are abstract in the model: predicate only *)
   | "LD" ->
     let c1 = cert_of f.(7) and k1 = key_of f.(8) in
     (match f.(2) with
